@@ -172,17 +172,6 @@ def finishCall (checks : Bool) (out : Option Hint) (r : Res) (s : St) : Res × S
   | .ret v => (.ok v, s)
   | r => (r, s)
 
-/-- An error that leaves a generator through its iterator is re-raised by the consumer as a *string*
-error carrying the message (`run_iterator_next`: `KIteratorOutput::Error(e) => runtime_error!(e.to_string())`):
-a failed `yield`/argument assertion keeps its message but is no longer an `UnexpectedType` error, a
-thrown string stays that string; other thrown values would need the display machinery (`stuck`). -/
-def genErr (x : Res × St) : Res × St :=
-  match x.1 with
-  | .err (.type h found) => (.err (.thrown (.str (typeErrMsg h found))), x.2)
-  | .err (.thrown (.str cs)) => (.err (.thrown (.str cs)), x.2)
-  | .err (.thrown _) => (.stuck 9, x.2)
-  | r => (r, x.2)
-
 /-- bind one `for`/function argument, then assert its hint -/
 def bindOne (checks : Bool) (b : Binder) (v : V) (s : St) : Res × St :=
   assertHint checks b.2 v (s.setOpt b.1 v)
@@ -326,11 +315,13 @@ def forItems (checks : Bool) (F : Funs) : Nat → List Binder → List V → Exp
     andThen (eval checks F n body s1) fun w s2 =>
       forItems checks F n bs rest body w s2
 
-/-- `for` over a generator: resume it in its own frame, come back, bind, run the body, repeat -/
+/-- `for` over a generator: resume it in its own frame, come back, bind, run the body, repeat.
+An error raised inside the generator reaches the consumer unchanged (`run_iterator_next` passes
+`KIteratorOutput::Error` on as it is), so a typed `catch` around the loop sees the thrown value. -/
 def forGen (checks : Bool) (F : Funs) : Nat → List Binder → Nat → List (Var × V) → Bool → Nat → Expr → V → St → Res × St
   | 0, _, _, _, _, _, _, _, s => (.stuck 0, s)
   | n + 1, bs, i, genv, started, pc, body, last, s =>
-    andThen (genErr (restore s (genNext checks F n i started pc { s with env := genv, out := none }))) fun r s1 =>
+    andThen (restore s (genNext checks F n i started pc { s with env := genv, out := none })) fun r s1 =>
       match r with
       | .tuple [v, .gen i' genv' started' pc'] =>
         andThen (bindLoop checks bs v s1) fun _ s2 =>
